@@ -6,6 +6,7 @@ use super::*;
 ///
 /// Fails if the schema is not a valid GraphQL document.
 pub fn parse_schema<T: AsRef<str>>(input: T) -> Result<ServiceDocument> {
+    check_nesting_depth(input.as_ref())?;
     let mut pc = PositionCalculator::new(input.as_ref());
     Ok(parse_service_document(
         exactly_one(
